@@ -72,6 +72,8 @@ Property clause → theorem
                                                                           → `lend_interaction_restarts_clock`, `lend_reward_interaction_restarts_clock`
 * two interactions (stored index + clock in between) ≤ one + 4·10⁻¹⁸ per unit of principal, interest and reserve share
                                                                           → `borrow_two_interactions_not_more`
+* one accrual function for the message route and the liquidation route; it IS the single accrual of the position's kind
+                                                                          → `borrow_charge_is_single_accrual`
 * `ReBalanceStableRates`: new stable rate = pool's current one or the old one (only within 20 points and below 90 % utilisation)
                                                                           → `stable_rebalance_spec`
 -/
@@ -783,6 +785,40 @@ theorem stable_rebalance_spec (s st u : Dec) :
         simp only [h1, if_false, h2, if_true, h3]
         split <;> rfl
       · simp only [h1, h2, if_false]
+
+/-- **One accrual function for both routes, and it is the single accrual**: what a borrow position is charged by one accrual —
+through a message (`IterateBorrow`) or through `CalculateBorrowInterestForLiquidation` (`LendRates.borrowCharge` is the model of
+both; the harness accrues every position through both routes from the same state, monitor `accrual_route_independent`) — is
+exactly the single-accrual formula of its kind over the elapsed time: `stableInterest` at the locked rate for a stable-rate borrow
+(the variable-rate interest is NOT added on top: seeded change s113), `indexInterest` at the current rate otherwise; hence never more
+than the single accrual (monitor `liq_route_single_accrual`). -/
+theorem borrow_charge_is_single_accrual (stable : Bool) (n : Int) (apr rr sr gi rgi : Dec) (now prev : Int) (d : Int)
+    (h : borrowCharge stable n apr rr sr gi rgi now prev = .ok [d]) :
+    0 ≤ elapsed now prev ∧
+    d = (if stable then stableInterest n sr (elapsed now prev) else indexInterest n apr gi (elapsed now prev)) ∧
+    d ≤ (if stable then stableInterest n sr (elapsed now prev) else indexInterest n apr gi (elapsed now prev)) := by
+  unfold borrowCharge borrowInterest at h
+  simp only [] at h
+  by_cases hs : elapsed now prev < 0
+  · simp [hs] at h
+  · by_cases hg : (gi = 0 || rgi = 0) = true
+    · simp [hs, hg] at h
+    · simp only [hs, hg, if_false] at h
+      cases stable with
+      | false =>
+        simp only [Bool.false_eq_true, if_false] at h
+        injection h with h; injection h with h
+        exact ⟨not_lt.mp hs, by simp [h], by simp [h]⟩
+      | true =>
+        unfold stableBorrowInterest at h
+        simp only [hs, if_true, if_false] at h
+        injection h with h; injection h with h
+        exact ⟨not_lt.mp hs, by simp [h], by simp [h]⟩
+
+example : borrowCharge true 1000000000 50000000000000000 10000000000000000 90000000000000000 1000000000000000000
+    1000000000000000000 (1700000000 + 86400) 1700000000 = .ok [246406570841889090000000] := by decide
+example : borrowCharge false 1000000000 50000000000000000 10000000000000000 90000000000000000 1000000000000000000
+    1000000000000000000 (1700000000 + 15778800) 1700000000 = .ok [25000000000000000000000000] := by decide
 
 /-- the same for a lend position (`IterateLends`): after the handler stored `(index, now)`, a second reward calculation in the
 same block accrues nothing into the tracker whatever the lend rate has become. -/
